@@ -313,6 +313,123 @@ theorem mem_age_index {rs : Requests} {d : Nat} {x : Req} (hx : x ∈ (age rs d)
   obtain ⟨y, hy, e⟩ := hx
   exact ⟨y, hy, by rw [← e]⟩
 
+/-! ### no panic under the invariant -/
+
+theorem findIdx_of_mem {l : List Req} {r : Req} (h : r ∈ l) : ∃ i, findIdx l r.index = some i := by
+  cases hf : findIdx l r.index with
+  | some i => exact ⟨i, rfl⟩
+  | none =>
+    unfold findIdx at hf
+    rw [List.findIdx?_eq_none_iff] at hf
+    have := hf r h
+    simp at this
+
+/-- "Requests is broken!" cannot happen: a set membership bit means the chunk is in one of
+    the two lists -/
+theorem del_no_panic {rs : Requests} (h : RInv rs) (c : Nat) (ro : Bool) :
+    ∃ t, del rs c ro = some t := by
+  unfold del
+  split
+  · exact ⟨_, rfl⟩
+  · rename_i hm
+    have hm' : rs.member c = true := by simpa using hm
+    split
+    · exact ⟨_, rfl⟩
+    · rename_i hfr
+      split
+      · exact ⟨_, rfl⟩
+      · split
+        · exact ⟨_, rfl⟩
+        · rename_i hfq
+          exfalso
+          rcases (h.2 c).1 hm' with hq | hr
+          · obtain ⟨r, hr1, hr2⟩ := List.mem_map.1 hq
+            obtain ⟨i, hi⟩ := findIdx_of_mem hr1
+            rw [hr2] at hi
+            rw [hi] at hfq
+            cases hfq
+          · obtain ⟨r, hr1, hr2⟩ := List.mem_map.1 hr
+            obtain ⟨i, hi⟩ := findIdx_of_mem hr1
+            rw [hr2] at hi
+            rw [hi] at hfr
+            cases hfr
+
+/-- "Couldn't delete request" cannot happen: `DelRequested` finds every sent request -/
+theorem delRequested_found {rs : Requests} (h : RInv rs) {r : Req} (hr : r ∈ rs.requested) :
+    (delRequested rs r.index).2 = true := by
+  have hm : rs.member r.index = true := (h.2 _).2 (Or.inr (List.mem_map.2 ⟨r, hr, rfl⟩))
+  obtain ⟨i, hi⟩ := findIdx_of_mem hr
+  unfold delRequested del
+  simp [hm, hi]
+
+/-- `Expire` never panics and keeps the invariant, whatever the callbacks do to their state -/
+theorem expireLoop_inv {σ : Type} (dropF : Nat → σ → σ) (cancelF : Requests → Req → σ → σ)
+    (a0 a1 : Nat) : ∀ (fuel i : Nat) (rs : Requests) (st : σ) (d : Bool), RInv rs →
+    ∃ rs' st' d', expireLoop dropF cancelF a0 a1 fuel i rs st d = some (rs', st', d') ∧ RInv rs'
+  | 0, i, rs, st, d, h => by
+    unfold expireLoop
+    exact ⟨rs, st, d, rfl, h⟩
+  | fuel + 1, i, rs, st, d, h => by
+    unfold expireLoop
+    split
+    · exact ⟨rs, st, d, rfl, h⟩
+    · rename_i r hr
+      split
+      · have hf := delRequested_found h (List.mem_of_getElem? hr)
+        have hi := (RInv_delRequested h r.index).1
+        cases hdr : delRequested rs r.index with
+        | mk rs2 found =>
+          rw [hdr] at hf hi
+          simp only at hf hi
+          simp only [hf, Bool.not_true, Bool.false_eq_true, if_false]
+          exact expireLoop_inv dropF cancelF a0 a1 fuel i rs2 _ true hi
+      · split
+        · exact expireLoop_inv dropF cancelF a0 a1 fuel (i + 1) _ _ d (RInv_mark h hr rfl)
+        · exact expireLoop_inv dropF cancelF a0 a1 fuel (i + 1) rs st d h
+
+theorem rstep_inv {rs : Requests} (h : RInv rs) (op : ROp) :
+    ∃ rs', rstep rs op = some rs' ∧ RInv rs' := by
+  cases op with
+  | enqueue c => exact ⟨_, rfl, RInv_enqueue h c⟩
+  | dequeue send =>
+    simp only [rstep]
+    cases hq : rs.queue with
+    | nil => exact ⟨rs, by simp, h⟩
+    | cons q rest =>
+      have hd : dequeue rs = some (q, { rs with queue := rest, member := mreset rs.member q.index }) := by
+        unfold dequeue; rw [hq]
+      obtain ⟨h1, _, h3⟩ := RInv_dequeue h hd
+      simp only [List.isEmpty_cons, Bool.false_eq_true, if_false, hd]
+      cases send with
+      | true =>
+        obtain ⟨rs2, e, hi⟩ := RInv_enqueueRequest h1 h3
+        exact ⟨rs2, by simpa using e, hi⟩
+      | false => exact ⟨_, by simp, h1⟩
+  | del c =>
+    obtain ⟨t, ht⟩ := del_no_panic h c false
+    obtain ⟨rs2, q, r⟩ := t
+    exact ⟨rs2, by simp [rstep, ht], (RInv_del h ht).1⟩
+  | delRequested c => exact ⟨_, rfl, (RInv_delRequested h c).1⟩
+  | cancel c => exact ⟨_, rfl, (RInv_cancel h c).1⟩
+  | clear both =>
+    refine ⟨_, rfl, ?_⟩
+    cases both
+    · exact RInv_clear_false h
+    · exact RInv_clear_both rs
+  | expire a0 a1 =>
+    obtain ⟨rs', st', d', e, hi⟩ := expireLoop_inv (σ := Unit) (fun _ s => s) (fun _ _ s => s) a0 a1
+      (2 * rs.requested.length + 1) 0 rs () false h
+    exact ⟨rs', by simp [rstep, expire, e], hi⟩
+  | age d => exact ⟨_, rfl, RInv_age h d⟩
+
+theorem rrun_inv : ∀ (ops : List ROp) (rs : Requests), RInv rs →
+    ∃ rs', rrun rs ops = some rs' ∧ RInv rs'
+  | [], rs, h => ⟨rs, rfl, h⟩
+  | op :: ops, rs, h => by
+    obtain ⟨rs1, e, h1⟩ := rstep_inv h op
+    obtain ⟨rs2, e2, h2⟩ := rrun_inv ops rs1 h1
+    exact ⟨rs2, by simp [rrun, e, e2], h2⟩
+
 /-! ### the bundle carried through the peer's handlers -/
 
 /-- every queued / sent chunk number is below `N`, and the representation invariant holds -/
